@@ -688,6 +688,45 @@ fn builder_sequences(rep: &mut Report, work: &Path) {
     clean();
     let r = Compiler::<TypescriptBackend, _>::new().set_output_mode(OutputMode::SingleFile(out.clone())).with_backend(RasnBackend::default()).add_asn_literal(ma).add_asn_literal(mb).add_asn_literal(mc).compile();
     check("output directory, with_backend(rasn), then sources", r.map_err(|e| e.to_string()).and_then(|_| read("generated.rs")), &want_rs);
+    // a configured backend travels through every builder state: whatever the order of the calls, what compile() writes
+    // is what compile_to_string() returns for that configuration
+    let md = "Seq-D DEFINITIONS AUTOMATIC TAGS ::= BEGIN\nDd ::= CHOICE { i INTEGER, b BOOLEAN }\nv INTEGER ::= 99999999999999999999\nEND\n";
+    let pd = dir.join("d.asn");
+    let _ = std::fs::write(&pd, md);
+    let mk = || rasn_compiler::prelude::RasnConfig { generate_from_impls: true, no_std_compliant_bindings: true, custom_imports: vec!["my::path".into()], type_annotations: vec!["#[derive(Debug, PartialOrd)]".into(), "#[non_exhaustive]".into()], ..Default::default() };
+    let Some(want_cfg) = Compiler::<RasnBackend, _>::new_with_config(mk()).add_asn_literal(md).compile_to_string().ok().map(|r| r.generated) else {
+        check("the configured module compiles", Err("it does not".into()), &want_rs);
+        return;
+    };
+    let default_cfg = Compiler::<RasnBackend, _>::new().add_asn_literal(md).compile_to_string().ok().map(|r| r.generated).unwrap_or_default();
+    check("the configuration shows in the bindings (vacuity guard)", if want_cfg == default_cfg { Err("it does not".into()) } else { Ok(want_cfg.clone()) }, &want_cfg);
+    let file = dir.join("out").join("cfg.rs");
+    let readf = || std::fs::read_to_string(&file).map_err(|e| format!("cfg.rs: {e}"));
+    clean();
+    let r = Compiler::<RasnBackend, _>::new_with_config(mk()).set_output_mode(OutputMode::SingleFile(file.clone())).add_asn_literal(md).compile();
+    check("new_with_config, output file, literal", r.map_err(|e| e.to_string()).and_then(|_| readf()), &want_cfg);
+    clean();
+    let r = Compiler::<RasnBackend, _>::new_with_config(mk()).set_output_mode(OutputMode::SingleFile(file.clone())).add_asn_by_path(&pd).compile();
+    check("new_with_config, output file, path", r.map_err(|e| e.to_string()).and_then(|_| readf()), &want_cfg);
+    clean();
+    let r = Compiler::<RasnBackend, _>::new_with_config(mk()).set_output_mode(OutputMode::SingleFile(file.clone())).add_asn_sources_by_path(vec![pd.clone()].into_iter()).compile();
+    check("new_with_config, output file, path list", r.map_err(|e| e.to_string()).and_then(|_| readf()), &want_cfg);
+    clean();
+    #[allow(deprecated)]
+    let r = Compiler::<RasnBackend, _>::new_with_config(mk()).set_output_path(file.clone()).add_asn_literal(md).compile();
+    check("new_with_config, set_output_path (deprecated), literal", r.map_err(|e| e.to_string()).and_then(|_| readf()), &want_cfg);
+    clean();
+    #[allow(deprecated)]
+    let r = Compiler::<RasnBackend, _>::new_with_config(mk()).add_asn_literal(md).set_output_path(file.clone()).compile();
+    check("new_with_config, literal, set_output_path (deprecated)", r.map_err(|e| e.to_string()).and_then(|_| readf()), &want_cfg);
+    clean();
+    let r = Compiler::<RasnBackend, _>::new_with_config(mk()).add_asn_by_path(&pd).set_output_mode(OutputMode::SingleFile(file.clone())).compile();
+    check("new_with_config, path, output file", r.map_err(|e| e.to_string()).and_then(|_| readf()), &want_cfg);
+    clean();
+    let r = Compiler::<TypescriptBackend, _>::new().set_output_mode(OutputMode::SingleFile(file.clone())).with_backend(RasnBackend::from_config(mk())).add_asn_literal(md).compile();
+    check("output file, with_backend(configured rasn), literal", r.map_err(|e| e.to_string()).and_then(|_| readf()), &want_cfg);
+    check("new_with_config, output file, literal, compile_to_string", s(Compiler::<RasnBackend, _>::new_with_config(mk()).set_output_mode(OutputMode::SingleFile(file.clone())).add_asn_literal(md).compile_to_string()), &want_cfg);
+    check("new_with_config, path list, literal, compile_to_string", s(Compiler::<RasnBackend, _>::new_with_config(mk()).add_asn_sources_by_path(Vec::<std::path::PathBuf>::new().into_iter()).add_asn_literal(md).compile_to_string()), &want_cfg);
 }
 
 fn macro_wrapping(cfg: &RunCfg, rep: &mut Report) {
